@@ -270,6 +270,7 @@ impl TimeTrigger {
         interval: TimeTriggerInterval,
         modulate: bool,
     ) -> Option<NaiveDateTime> {
+        // (An interval of zero units has no multiples: modulation then changes nothing.)
         // All calendar arithmetic is done on the local wall-clock time, so that the result
         // stays on a unit boundary when the UTC offset changed earlier in the current unit.
         let date = current.date_naive();
@@ -277,7 +278,11 @@ impl TimeTrigger {
         let year = current.year();
         if let TimeTriggerInterval::Year(n) = interval {
             let n = i32::try_from(n).ok()?;
-            let increment = if modulate { n - year % n } else { n };
+            let increment = if modulate {
+                n - year.checked_rem(n).unwrap_or(0)
+            } else {
+                n
+            };
             let year_new = year.checked_add(increment)?;
             return NaiveDate::from_ymd_opt(year_new, 1, 1)
                 .map(|date| NaiveDateTime::new(date, chrono::NaiveTime::MIN));
@@ -286,7 +291,11 @@ impl TimeTrigger {
         if let TimeTriggerInterval::Month(n) = interval {
             let month0 = current.month0();
             let n = u32::try_from(n).ok()?;
-            let increment = if modulate { n - month0 % n } else { n };
+            let increment = if modulate {
+                n - month0.checked_rem(n).unwrap_or(0)
+            } else {
+                n
+            };
             let num_months = u32::try_from(year).ok()?.checked_mul(12)? + month0;
             let num_months_new = num_months.checked_add(increment)?;
             let year_new = i32::try_from(num_months_new / 12).ok()?;
@@ -298,7 +307,11 @@ impl TimeTrigger {
         if let TimeTriggerInterval::Week(n) = interval {
             let week0 = current.iso_week().week0() as i64;
             let weekday = current.weekday().num_days_from_monday() as i64; // Monday is the first day of the week
-            let increment = if modulate { n - week0 % n } else { n };
+            let increment = if modulate {
+                n - week0.checked_rem(n).unwrap_or(0)
+            } else {
+                n
+            };
             return midnight
                 .checked_add_signed(Duration::try_weeks(increment)?)?
                 .checked_sub_signed(Duration::days(weekday));
@@ -306,26 +319,42 @@ impl TimeTrigger {
 
         if let TimeTriggerInterval::Day(n) = interval {
             let ordinal0 = current.ordinal0() as i64;
-            let increment = if modulate { n - ordinal0 % n } else { n };
+            let increment = if modulate {
+                n - ordinal0.checked_rem(n).unwrap_or(0)
+            } else {
+                n
+            };
             return midnight.checked_add_signed(Duration::try_days(increment)?);
         }
 
         let hour = current.hour() as i64;
         if let TimeTriggerInterval::Hour(n) = interval {
-            let increment = if modulate { n - hour % n } else { n };
+            let increment = if modulate {
+                n - hour.checked_rem(n).unwrap_or(0)
+            } else {
+                n
+            };
             return midnight.checked_add_signed(Duration::try_hours(hour.checked_add(increment)?)?);
         }
 
         let min = current.minute() as i64;
         if let TimeTriggerInterval::Minute(n) = interval {
-            let increment = if modulate { n - min % n } else { n };
+            let increment = if modulate {
+                n - min.checked_rem(n).unwrap_or(0)
+            } else {
+                n
+            };
             return (midnight + Duration::hours(hour))
                 .checked_add_signed(Duration::try_minutes(min.checked_add(increment)?)?);
         }
 
         let sec = current.second() as i64;
         if let TimeTriggerInterval::Second(n) = interval {
-            let increment = if modulate { n - sec % n } else { n };
+            let increment = if modulate {
+                n - sec.checked_rem(n).unwrap_or(0)
+            } else {
+                n
+            };
             return (midnight + Duration::hours(hour) + Duration::minutes(min))
                 .checked_add_signed(Duration::try_seconds(sec.checked_add(increment)?)?);
         }
